@@ -73,10 +73,11 @@ proof fn lemma_min_pre(re: Regex, c: Map<RegexId, DFAId>, dfa: DFA, sid: Map<ISe
         subset_ok(re, c, dfa, sid), wl_extra(sid, dfa.transitions@, s_first(re.arena@, nid(re.root_id))),
         forall|s: ISet<u32>| #[trigger] sid.contains_key(s) ==> FIRST_STATE_ID <= sid[s] < next,
         keys_in_pool(dfa.transitions@, dfa.inputs@.len() as int),
-    ensures no_zero(dfa), all_have_pred(dfa), acc_occur(dfa)
+    ensures no_zero(dfa), all_have_pred(dfa), acc_occur(dfa), rows_total(dfa)
 {
     reveal(no_zero);
     reveal(all_have_pred);
+    reveal(rows_total);
     let tr = dfa.transitions@;
     let first = s_first(re.arena@, nid(re.root_id));
     // every end of a transition is the number of a set
@@ -114,6 +115,13 @@ proof fn lemma_min_pre(re: Regex, c: Map<RegexId, DFAId>, dfa: DFA, sid: Map<ISe
         let (p, b) = choose|p: u32, b: InpId| #[trigger] used_t(tr, p, b) && tr[p][b] == v;
         assert(used(dfa, p, b));
     }
+    assert forall|v: u32| #[trigger] is_end(dfa, v) implies tr.contains_key(v) by {
+        let (q, a) = choose|q: u32, a: InpId| #[trigger] used(dfa, q, a) && (q == v || tr[q][a] == v);
+        let s = choose|s: ISet<u32>| #[trigger] sid.contains_key(s) && sid[s] == q;
+        let t = choose|t: ISet<u32>| #[trigger] sid.contains_key(t) && sid[t] == tr[q][a];
+        let sv = if q == v { s } else { t };
+        assert(row_ok(re, c, sid, tr, dfa.inputs@, sv, dfa.inputs@.len() as int));
+    }
     assert forall|v: u32| dfa.accepting_states@.contains(v) && v != dfa.starting_state implies is_end(dfa, v) by {
         assert(acc_wit(sid, re.endmarker_position, v));
         let s = choose|s: ISet<u32>| #[trigger] sid.contains_key(s) && sid[s] == v && s.contains(re.endmarker_position);
@@ -121,6 +129,133 @@ proof fn lemma_min_pre(re: Regex, c: Map<RegexId, DFAId>, dfa: DFA, sid: Map<ISe
         assert(entered(tr, sid[s]));
         let (p, b) = choose|p: u32, b: InpId| #[trigger] used_t(tr, p, b) && tr[p][b] == v;
         assert(used(dfa, p, b));
+    }
+}
+
+
+/// every numbered set is reached from the first one through cells of the table
+spec fn wl_reach(sid: Map<ISet<u32>, u32>, tr: Map<u32, Map<InpId, u32>>) -> bool {
+    forall|s: ISet<u32>| #[trigger] sid.contains_key(s) ==> exists|w: Seq<InpId>| trun(tr, FIRST_STATE_ID, w) == Some(sid[s])
+}
+
+/// tr2 has every cell of tr
+spec fn cells_kept(tr: Map<u32, Map<InpId, u32>>, tr2: Map<u32, Map<InpId, u32>>) -> bool {
+    forall|q: u32, a: InpId| #[trigger] cell_in(tr, q, a) ==> cell_in(tr2, q, a) && tr2[q][a] == tr[q][a]
+}
+
+proof fn lemma_trun_mono(tr: Map<u32, Map<InpId, u32>>, tr2: Map<u32, Map<InpId, u32>>, q: u32, w: Seq<InpId>)
+    requires cells_kept(tr, tr2), trun(tr, q, w) is Some
+    ensures trun(tr2, q, w) == trun(tr, q, w)
+    decreases w.len()
+{
+    if w.len() > 0 {
+        assert(cell_in(tr, q, w[0]));
+        lemma_trun_mono(tr, tr2, tr[q][w[0]], w.drop_first());
+    }
+}
+
+proof fn lemma_trun_snoc2(tab: Map<u32, Map<InpId, u32>>, q: u32, w: Seq<InpId>, a: InpId)
+    ensures trun(tab, q, w.push(a)) == (match trun(tab, q, w) {
+        None => None::<u32>,
+        Some(p) => if cell_in(tab, p, a) { Some(tab[p][a]) } else { None },
+    })
+    decreases w.len()
+{
+    let wa = w.push(a);
+    if w.len() == 0 {
+        assert(wa[0] == a);
+        assert(wa.drop_first() =~= Seq::<InpId>::empty());
+        if cell_in(tab, q, a) { assert(trun(tab, tab[q][a], wa.drop_first()) == Some(tab[q][a])); }
+    } else {
+        assert(wa[0] == w[0]);
+        assert(wa.drop_first() =~= w.drop_first().push(a));
+        if cell_in(tab, q, w[0]) { lemma_trun_snoc2(tab, tab[q][w[0]], w.drop_first(), a); }
+    }
+}
+
+proof fn lemma_reach_init(first: ISet<u32>)
+    ensures wl_reach(Map::<ISet<u32>, u32>::empty().insert(first, FIRST_STATE_ID), Map::<u32, Map<InpId, u32>>::empty())
+{
+    let sid = Map::<ISet<u32>, u32>::empty().insert(first, FIRST_STATE_ID);
+    let tr = Map::<u32, Map<InpId, u32>>::empty();
+    assert forall|s: ISet<u32>| #[trigger] sid.contains_key(s) implies exists|w: Seq<InpId>| trun(tr, FIRST_STATE_ID, w) == Some(sid[s]) by {
+        assert(trun(tr, FIRST_STATE_ID, Seq::<InpId>::empty()) == Some(sid[s]));
+    }
+}
+
+proof fn lemma_reach_keep(sid: Map<ISet<u32>, u32>, tr: Map<u32, Map<InpId, u32>>, tr2: Map<u32, Map<InpId, u32>>)
+    requires wl_reach(sid, tr), cells_kept(tr, tr2)
+    ensures wl_reach(sid, tr2)
+{
+    assert forall|s: ISet<u32>| #[trigger] sid.contains_key(s) implies exists|w: Seq<InpId>| trun(tr2, FIRST_STATE_ID, w) == Some(sid[s]) by {
+        let w = choose|w: Seq<InpId>| trun(tr, FIRST_STATE_ID, w) == Some(sid[s]);
+        lemma_trun_mono(tr, tr2, FIRST_STATE_ID, w);
+    }
+}
+
+/// `transitions.entry(id).or_default()`
+proof fn lemma_reach_row(sid: Map<ISet<u32>, u32>, tr: Map<u32, Map<InpId, u32>>, tr2: Map<u32, Map<InpId, u32>>, id: u32)
+    requires
+        wl_reach(sid, tr),
+        tr.contains_key(id) ==> tr2 == tr,
+        !tr.contains_key(id) ==> tr2 == tr.insert(id, Map::<InpId, u32>::empty()),
+    ensures wl_reach(sid, tr2)
+{
+    assert(cells_kept(tr, tr2));
+    lemma_reach_keep(sid, tr, tr2);
+}
+
+/// one step of the row loop
+proof fn lemma_reach_step(sid: Map<ISet<u32>, u32>, tr: Map<u32, Map<InpId, u32>>, next: u32, cs: ISet<u32>, id: u32, j: int, tg: ISet<u32>,
+                          sid2: Map<ISet<u32>, u32>, tr2: Map<u32, Map<InpId, u32>>)
+    requires
+        wl_reach(sid, tr), sid.contains_key(cs), sid[cs] == id, tr.contains_key(id), !tr[id].contains_key(id_of(j)),
+        nonempty(tg) ==> (sid.contains_key(tg) ==> sid2 == sid) && (!sid.contains_key(tg) ==> sid2 == sid.insert(tg, next))
+            && tr2 == tr.insert(id, tr[id].insert(id_of(j), sid2[tg])),
+        !nonempty(tg) ==> sid2 == sid && tr2 == tr,
+    ensures wl_reach(sid2, tr2)
+{
+    if nonempty(tg) {
+        assert(cells_kept(tr, tr2)) by {
+            assert forall|q: u32, a: InpId| #[trigger] cell_in(tr, q, a) implies cell_in(tr2, q, a) && tr2[q][a] == tr[q][a] by {
+                assert(!(q == id && a == id_of(j)));
+            }
+        }
+        lemma_reach_keep(sid, tr, tr2);
+        assert forall|s: ISet<u32>| #[trigger] sid2.contains_key(s) implies exists|w: Seq<InpId>| trun(tr2, FIRST_STATE_ID, w) == Some(sid2[s]) by {
+            if sid.contains_key(s) {
+                assert(sid2[s] == sid[s]);
+            } else {
+                assert(s == tg);
+                let w = choose|w: Seq<InpId>| trun(tr2, FIRST_STATE_ID, w) == Some(sid[cs]);
+                lemma_trun_snoc2(tr2, FIRST_STATE_ID, w, id_of(j));
+                assert(cell_in(tr2, id, id_of(j)) && tr2[id][id_of(j)] == sid2[tg]);
+                assert(trun(tr2, FIRST_STATE_ID, w.push(id_of(j))) == Some(sid2[tg]));
+            }
+        }
+    }
+}
+
+proof fn lemma_min_reach(re: Regex, c: Map<RegexId, DFAId>, dfa: DFA, sid: Map<ISet<u32>, u32>, next: u32)
+    requires
+        subset_ok(re, c, dfa, sid), wl_extra(sid, dfa.transitions@, s_first(re.arena@, nid(re.root_id))), wl_reach(sid, dfa.transitions@),
+        keys_in_pool(dfa.transitions@, dfa.inputs@.len() as int),
+    ensures reach_ok(dfa)
+{
+    reveal(reach_ok);
+    let tr = dfa.transitions@;
+    assert forall|v: u32| #[trigger] is_end(dfa, v) implies exists|w: Seq<InpId>| trun(tr, dfa.starting_state, w) == Some(v) by {
+        let (q, a) = choose|q: u32, a: InpId| #[trigger] used(dfa, q, a) && (q == v || tr[q][a] == v);
+        assert(tr.contains_key(q));
+        let s = choose|s: ISet<u32>| #[trigger] sid.contains_key(s) && sid[s] == q;
+        assert(row_ok(re, c, sid, tr, dfa.inputs@, s, dfa.inputs@.len() as int));
+        assert(used_t(tr, q, a));
+        let i = choose|i: int| 0 <= i < dfa.inputs@.len() && a == #[trigger] id_of(i);
+        assert(cell_ok(re, c, sid, tr[sid[s]], dfa.inputs@, s, i, dfa.inputs@.len() as int));
+        let t = target(re, c, s, dfa.inputs@[i]);
+        assert(sid.contains_key(t) && sid[t] == tr[q][a]);
+        let sv = if q == v { s } else { t };
+        assert(sid.contains_key(sv) && sid[sv] == v);
     }
 }
 
